@@ -421,7 +421,7 @@ Proof.
     + intros sv' Hsv'. apply u8_maybe_delete_session. u8_pure.
   - destruct (update_last_cmid _ _ _ _ sv) as [sv1|] eqn:Hu; [|exact Hsv].
     exact (u8_update_last_cmid _ _ _ _ _ _ Hsv Hu).
-  - destruct parsed as [g|]; [|exact Hsv]. u8_hyps. unfold utf8_outcome, Utf8State. u8_pure.
+  - destruct (config_in_force _ _ _) as [g|] eqn:Hcf; [|exact Hsv]. apply config_in_force_Some in Hcf. rewrite Hcf in Hen. u8_hyps. unfold utf8_outcome, Utf8State. u8_pure.
 Qed.
 
 (* ---- histories -------------------------------------------------------------------------------------------- *)
